@@ -8,7 +8,7 @@ from harness.common import viol
 
 PID = 'C18'
 LEVEL = 'exploration'
-RULE = ('Lists of 0-6 composite metadata entries of every kind: routing tags (0-5 tags of 0-255 bytes, bytes or str), '
+RULE = ('(A routing item object that was encoded once is given other tags - by assignment and by parse() - and encoded again.) Lists of 0-6 composite metadata entries of every kind: routing tags (0-5 tags of 0-255 bytes, bytes or str), '
         'authentication simple (username lengths 0/1/255/256/65535 and random, password bytes) and bearer, per-stream '
         'MIME type and accepted MIME types (well-known ids and custom names of 1-128 bytes, boundary biased, given as '
         'enum or bytes), generic entries with well-known or custom MIME and content 0-2 KiB (a few 70 KiB); built '
@@ -228,6 +228,30 @@ def check_case(case):
             out.append(viol('encode_differs_from_reference', 'C18:encode_differs:%s' % '+'.join(sorted(set(e[0] for e in case['entries']))),
                             backend=var.name, at=i, got=bytes(got)[max(0, i - 8):i + 24].hex(), want=ref[max(0, i - 8):i + 24].hex(),
                             got_len=len(got), want_len=len(ref)))
+        # an item object that has been encoded once, is given other tags (assignment, or parse() of other bytes into the same
+        # object, as a forwarding proxy or a client that keeps one routing item does) and is encoded again
+        for (it, _r, d) in built:
+            if d[0] != 'routing' or not hasattr(it, 'tags'):
+                continue
+            new_tags = [bytes(t) for t in reversed(d[1])] + [b'again']
+            want_again = refcodec.enc_composite([(refcodec.MIME_ROUTING, refcodec.enc_tags(new_tags))])
+            try:
+                it.tags = list(new_tags)
+                got_a = bytes(H.composite(it))
+                it.parse(refcodec.enc_tags(new_tags[:-1] + [b'parsed']))
+                got_b = bytes(H.composite(it))
+                want_b = refcodec.enc_composite([(refcodec.MIME_ROUTING, refcodec.enc_tags(new_tags[:-1] + [b'parsed']))])
+            except Exception as e:
+                is_repo, sig = common.repo_exception_sig(e)
+                if not is_repo:
+                    raise
+                out.append(viol('encode_raised', 'C18:encode_raised:reused_item:%s' % type(e).__name__, backend=var.name, exc=repr(e)))
+                break
+            if got_a != want_again or got_b != want_b:
+                out.append(viol('encode_differs_from_reference', 'C18:encode_differs:reused_item:%s' % ('assigned' if got_a != want_again else 'parsed'),
+                                backend=var.name, got=(got_a if got_a != want_again else got_b)[:40].hex(),
+                                want=(want_again if got_a != want_again else want_b)[:40].hex()))
+            break
         try:
             parsed = CM.CompositeMetadata().parse(ref)
             descr = [describe(var, it) for it in parsed.items]
